@@ -13,6 +13,23 @@ Open Scope Z_scope.
 (* _epoch (ms), _nodeBits, _nodeAtLowest: snowflake.go:36-45 *)
 Record cfg := mkcfg { epoch : Z; node_bits : Z; node_low : bool }.
 
+(* ---- the public configuration API: snowflake.go:85-124 ----
+   UseEpoch(t) stores t.UnixMilli() (the instant is carried as nanoseconds since 1970, UnixMilli is the floor to the
+   millisecond; no wrap for |ms| < 2^63, which every case satisfies); UseNodeMode(m) keeps Node256 (8) and Node512 (9)
+   and turns EVERY other value (also 0, 7, 11, 255) into Node1024 (10); NodeAtLowest() can only switch the flag on.
+   Setup starts from the CURRENT globals, not from the package defaults, applies the options left to right and writes
+   the three globals back - so it is cumulative (a later Setup() without NodeAtLowest keeps the flag). *)
+Inductive opt := OEpoch (ns : Z) | OMode (m : Z) | OLowest.
+Definition apply_opt (c : cfg) (o : opt) : cfg :=
+  match o with
+  | OEpoch ns => mkcfg (ns / 1000000) (node_bits c) (node_low c)
+  | OMode m => mkcfg (epoch c) (if (m =? 8) || (m =? 9) then m else 10) (node_low c)
+  | OLowest => mkcfg (epoch c) (node_bits c) true
+  end.
+Definition setup_from (cur : cfg) (opts : list opt) : cfg := fold_left apply_opt opts cur.
+Definition default_cfg : cfg := mkcfg 1609430400000 10 false.       (* the initial values of the three globals *)
+Definition setup (opts : list opt) : cfg := setup_from default_cfg opts.
+
 Definition STEP_BITS : Z := 12.
 Definition OFF : Z := 28800000.                    (* zone offset of timeLoc in ms *)
 Definition wrap64 (x : Z) : Z := (x + 2 ^ 63) mod 2 ^ 64 - 2 ^ 63.
